@@ -27,6 +27,7 @@ EXPLANATION = (
     "common matrix re-uses the training slices and stacks the same terms in the same order; R17.5 printing "
     "contains no assert/raise and reports the live shape; R17.6 one frame reaches all three matrices."
     " R17.8 one holder per component object (C06's R6.4)."
+    ' R17.10 no axis-less squeeze on the evaluation path.'
 )
 ASSUMPTIONS = [
     "np.column_stack preserves list order and contributes shape[1] columns per 2-D block and one per 1-D block",
@@ -558,10 +559,20 @@ def loop_model(prog, q, container):
             for n in ast.walk(st):
                 if isinstance(n, ast.Name) and isinstance(n.ctx, ast.Store):
                     pre.env[n.id] = SX.Opaque(f"<{n.id} after {type(st).__name__}>")
-    def coll(e):
-        """the collection an iteration ranges over: X.values() / X.items() -> X (same order)"""
+    def coll(e, _depth=0):
+        """the collection an iteration ranges over: X.values() / X.items() -> X (same order); list(X) / tuple(X) -> X; a local
+        bound once (before the loop) to one of these -> the same collection"""
         if isinstance(e, ast.Call) and isinstance(e.func, ast.Attribute) and e.func.attr in ("values", "items") and not e.args:
             return pre.text(e.func.value) + " (dict order)"
+        if isinstance(e, ast.Call) and dotted(e.func) in ("list", "tuple") and len(e.args) == 1 and not e.keywords:
+            return coll(e.args[0], _depth + 1)
+        if isinstance(e, ast.Name) and _depth < 4:
+            ds = [st for st in ast.walk(f.node) if isinstance(st, ast.Assign) and any(isinstance(t, ast.Name) and t.id == e.id for t in st.targets)]
+            stores_ = [n for n in ast.walk(f.node) if isinstance(n, ast.Name) and n.id == e.id and isinstance(n.ctx, ast.Store)]
+            grown = [c for c in calls_in(f.node, local=False) if isinstance(c.func, ast.Attribute) and unparse(c.func.value) == e.id
+                     and c.func.attr in ("append", "insert", "extend", "pop", "remove", "sort", "reverse", "clear")]
+            if len(ds) == 1 and len(stores_) == 1 and not grown and (ds[0] in f.node.body or any(unparse(x) == unparse(ds[0]) for x in body)):
+                return coll(ds[0].value, _depth + 1)
         return pre.text(e)
 
     it = coll(lp.iter)
